@@ -222,6 +222,28 @@ def run(chk):
     r = P.call_method(FILE, "Circuit.add_subcircuit", p1, scbb, "u0")
     chk.ob("C06.G.guards", "add_subcircuit::sub-blackbox name exists", r[0] == "raise" and r[1] == "ValueError" and p1._snapshot() == before, file=FILE, func="Circuit.add_subcircuit", fact={"result": str(r)[:100]}, expect="ValueError and nothing merged")
 
+    # the same splice with the repository's OWN Circuit class on both sides (full stack): `relabel`, `copy`, `set_type`, `connect` ... are
+    # circuit.py's code then. Children of every family, and one whose own nets already look prefixed (it contains an instance `u` and
+    # is instantiated as `u` itself: `g` next to `u_g`, the plain name first in node order)
+    from ..pkgenv import Package as _Pkg, to_full as _to_full, to_ref as _to_ref
+
+    PFS = _Pkg(repo, full_stack=True)
+    nested = build({"i": ("input", []), "g": ("not", ["i"]), "u_g": ("and", ["g", "i"]), "u_i": ("buf", ["g"]), "o": ("xor", ["u_g", "u_i"])}, outputs=["o", "u_g"])
+    for cname, sc, inst in [(k_, c_, "u0") for k_, c_ in children() if k_ in ("half-adder", "inv-chain", "with-const", "out-is-in")] + [("nets-that-already-look-prefixed", nested, "u")]:
+        ins, outs = sorted(sc.inputs()), sorted(sc.outputs())
+        conns = {ins[0]: "A", outs[0]: "T1"}
+        ref = parent()
+        ref.add_subcircuit(sc, inst, dict(conns), True)
+        prob = None
+        try:
+            pf, cf = _to_full(PFS, parent()), _to_full(PFS, sc)
+            pf.add_subcircuit(cf, inst, dict(conns))
+            prob = same_as_reference(_to_ref(pf), ref)
+        except ModelRaise as e_:
+            prob = {"problem": "raises", "error": str(e_)[:160]}
+        n_eval += 1
+        chk.ob("C06.S.add_subcircuit", f"add_subcircuit::{cname}::as {inst}@full-stack", prob is None, file=FILE, func="Circuit.add_subcircuit", line=fa.node.lineno, fact=prob or {"connections": str(conns)},
+               expect="the documented splice, with circuit.py's own class on both sides")
     # ---- F: fill_blackbox ------------------------------------------------
     for cname, sc in children():
         ins, outs = sorted(sc.inputs()), sorted(sc.outputs())
@@ -268,6 +290,21 @@ def run(chk):
             if prob is None and sc._snapshot() != snap:
                 prob = {"problem": "the child circuit was modified"}
             chk.ob("C06.F.fill_blackbox", key, prob is None, file=FILE, func="Circuit.fill_blackbox", line=ff_.node.lineno, fact=prob or {"connections": str(conns)}, expect="functional substitution; blackbox disappears; sub-blackboxes prefixed")
+    # the circuit as the filling of one of its own blackboxes (an instance with the circuit's own interface, next to another
+    # sub-blackbox): "a renamed copy of sc" is a copy of the circuit as it was when the call was made - its own instances included
+    ffs_ = RefBlackBox("ff", ["d"], ["q"])
+    selfbb = RefBlackBox("me", ["a"], ["o"])
+    ps = build({"a": ("input", []), "f.d": ("bb_input", ["a"]), "f.q": ("bb_output", []), "w": ("buf", ["f.q"]), "inst.a": ("bb_input", ["w"]), "inst.o": ("bb_output", []), "v": ("buf", ["inst.o"]),
+                "o": ("xor", ["v", "a"])}, outputs=["o"], blackboxes={"f": ffs_, "inst": selfbb})
+    ref = ps.copy()
+    ref.fill_blackbox("inst", ps.copy())
+    r = P.call_method(FILE, "Circuit.fill_blackbox", ps, "inst", ps)
+    n_eval += 1
+    prob = {"result": str(r)[:160]} if r[0] != "return" else same_as_reference(ps, ref)
+    if prob is None and sorted(ps.blackboxes) != sorted(ref.blackboxes):
+        prob = {"problem": "sub-blackboxes are not carried over under prefixed names", "registry": sorted(ps.blackboxes), "expected": sorted(ref.blackboxes)}
+    chk.ob("C06.F.fill_blackbox", "fill_blackbox::the circuit itself as the filling", prob is None, file=FILE, func="Circuit.fill_blackbox", line=ff_.node.lineno, fact=prob or {"registry": sorted(ps.blackboxes)},
+           expect="as filling with a copy of the circuit taken before the call: its own instances carried over under prefixed names")
     # two recorded instances whose names overlap textually (hierarchical prefixing makes `top_inst` next to `inst`)
     sc = next(children())[1]
     bbh = RefBlackBox("blk", sorted(sc.inputs()), sorted(sc.outputs()))
